@@ -137,6 +137,21 @@ Theorem C12_uses_cover :
 Proof. exact uses_cover. Qed.
 Print Assumptions C12_uses_cover.
 
+(* list-valued lines ("Gradients, 50, 40, 30", "Thicknesses, 1, 1": ReadParameter re-reads them from the raw line): a
+   trailing "-- comment" - ANY text, commas and digits included - after a comma and optional whitespace changes none of
+   the fields handed to float(), provided the line has no "--" before it *)
+Theorem C12_list_trailing_comment : forall a p c : string,
+  before_dd (a ++ COMMA :: p) = a ++ COMMA :: p -> allws p = true ->
+  list_fields (a ++ COMMA :: p ++ DASH :: DASH :: c) = list_fields a.
+Proof. exact list_trailing_comment. Qed.
+Print Assumptions C12_list_trailing_comment.
+
+Example C12_example_list :
+  list_fields $"Thicknesses, 1, 1, -- equal, 0.5 km each, really" = [$"1"; $"1"]
+  /\ list_fields $"Gradients, 50, 40 ,30,--x" = [$"50"; $"40"; $"30"]
+  /\ before_dd $"Thicknesses, 1, 1, " = $"Thicknesses, 1, 1, ".
+Proof. vm_compute. repeat split; reflexivity. Qed.
+
 (* the whitespace of the model is EXACTLY the 29 code points str.isspace() accepts (the list is compared with the
    running interpreter's table on every check) *)
 Theorem C12_whitespace_table : forall c : N, is_ws c = true <-> In c ws_points.
